@@ -1394,19 +1394,20 @@ class BaseLoss(object):
         index_out = list()
         # locate the target indexes
         index_list = self._getTargetParamIndex()
-        if isinstance(state_index, list):
+        if not isinstance(state_index, list):
+            state_index = [state_index]
+        # One block per target parameter, in the order the parameters were
+        # given, each block holding the observed states in the order of
+        # state_name.  This is the layout sens_to_grad and sens_to_jtj unpack,
+        # and the one in which the weights and the residuals are stored.
+        for i in index_list:
             for j in state_index:
-                for i in index_list:
-                    # always ignore the first numState because they are
-                    # outputs from the actual ode and not the sensitivities.
-                    # Hence the +1
-                    index_out.append(j + (i + 1) * self._num_state)
-        else:
-            # else, happy times!
-            for i in index_list:
-                index_out.append(state_index + (i + 1) * self._num_state)
+                # always ignore the first numState because they are
+                # outputs from the actual ode and not the sensitivities.
+                # Hence the +1
+                index_out.append(j + (i + 1) * self._num_state)
 
-        return np.sort(np.array(index_out)).tolist()
+        return index_out
 
     def _getTargetParamIndex(self):
         """
@@ -1437,18 +1438,17 @@ class BaseLoss(object):
         ## exceed the 80 character limit
         n_s = self._num_state
         n_p = self._num_param
-        if isinstance(state_index, list):
+        if not isinstance(state_index, list):
+            state_index = [state_index]
+        # same layout as in _getTargetParamSensIndex: one block per target
+        # state (initial value), observed states in the order of state_name
+        for i in index_list:
             for j in state_index:
-                for i in index_list:
-                    # always ignore the first numState because they are outputs
-                    # from the actual ode and not the sensitivities
-                    index_out.append(j + (i + 1 + n_p)*n_s)
-        else:
-            # else, happy times!
-            for i in index_list:
-                index_out.append(state_index + (i + 1 + n_p)*n_s)
+                # always ignore the first numState because they are outputs
+                # from the actual ode and not the sensitivities
+                index_out.append(j + (i + 1 + n_p)*n_s)
 
-        return np.sort(np.array(index_out)).tolist()
+        return index_out
 
     def _getTargetStateIndex(self):
         """
